@@ -320,7 +320,7 @@ fn compare(
 }
 
 pub fn check(c: &mut Checker, base: &Run) {
-    if c.env.feats[c.scn.program].error_b || c.scn.has_exotic || c.scn.has_dup {
+    if c.env.feats[c.scn.program].error_b || c.scn.has_exotic || c.scn.has_nonfinite || c.scn.has_dup {
         return;
     }
     let (first, loc) = match first_report(&base.events) {
